@@ -213,7 +213,7 @@ def step (_ : Unit) (line : String) : Unit × String :=
           "(" ++ rGAtom r.head ++ " " ++ renderList (r.body.map (fun l => (if l.1 then "+" else "-") ++ rGAtom l.2)) ++ " " ++
             (match r.choice with | none => "-" | some c => toString c) ++ ")")) ++ ") (groups " ++
         " ".intercalate (g.2.map (fun gr => renderList (gr.alts.map (fun a => "(" ++ renderRat a.1 ++ " " ++ toString a.2 ++ ")")))) ++
-        ") " ++ toString (SemFO.ground F).nchoices
+        ") " ++ toString (SemFO.totalChoices F.consts F.stmts)
     | none => "bad-op"
   | _ => "bad-op")
 
